@@ -322,6 +322,22 @@ func cmdCheck(args []string) int {
 	}
 	items = append(items, kfItems...)
 	dischargeAll(items, dir, timeout, seed, 16)
+	// second chance, with little contention and a longer limit, before anything is reported as not discharged
+	var retry []OblResult
+	var retryIdx []int
+	for i := range items {
+		if !items[i].Obl.Cover && items[i].Res.Status != "unsat" && items[i].Res.Status != "sat" {
+			retry = append(retry, OblResult{Obl: items[i].Obl, VC: items[i].VC})
+			retryIdx = append(retryIdx, i)
+		}
+	}
+	if len(retry) > 0 && len(retry) <= 24 {
+		dischargeAll(retry, filepath.Join(dir, "retry"), timeout*3, seed+1, 4)
+		for j, i := range retryIdx {
+			retry[j].Res.Ms += items[i].Res.Ms
+			items[i].Res = retry[j].Res
+		}
+	}
 	sort.SliceStable(items, func(i, j int) bool { return items[i].Obl.Name < items[j].Obl.Name })
 
 	// ---- verdicts
